@@ -104,8 +104,6 @@ func RotationTo(from, to vector3.Float64) Quaternion {
 		}
 
 		return FromTheta(math.Pi, cross.Normalized())
-	} else if dot > 0.999999 {
-		return New(vector3.Zero[float64](), 1)
 	}
 
 	cross := from.Cross(to)
